@@ -447,12 +447,25 @@ def qtlc(cfg, **kw):
     return vlib.tlc(QSPEC, kw.pop("module", "QueueConn"), cfg, **kw)
 
 
-def run_queue_cases(chk, target, cases, tag, T=2):
+# Durations (ns) that one tick of the specification's abstract clock is
+# concretised as in the explicit-clock replay: always the smallest, one below
+# 100 ms and one second, plus a seeded choice of two more.
+TICK_ALWAYS = [1, 37 * 10**6, 10**9]
+TICK_POOL = [10**3, 10**6, 3 * 10**6, 250 * 10**6, 60 * 10**9, 3600 * 10**9]
+
+
+def tick_scales(chk):
+    rng = random.Random(chk.seed * 7919 + 17)
+    return TICK_ALWAYS + rng.sample(TICK_POOL, 2)
+
+
+def run_queue_cases(chk, target, cases, tag, T=2, ticks=None):
     d = vlib.scratch("queue")
     inp, outp = os.path.join(d, tag + ".in.ndjson"), os.path.join(d, tag + ".out.ndjson")
     vlib.write_ndjson(inp, cases)
     r = vlib.go_test_inpkg("common/turbotunnel", [INPKG], "TestVerifQueue$", timeout=900,
-                           env={"VERIF_IN": inp, "VERIF_OUT": outp, "VERIF_TARGET": target, "VERIF_T": str(T), "VERIF_SEED": str(chk.seed)})
+                           env={"VERIF_IN": inp, "VERIF_OUT": outp, "VERIF_TARGET": target, "VERIF_T": str(T), "VERIF_SEED": str(chk.seed),
+                                "VERIF_TICKS_NS": ",".join(str(t) for t in (ticks or [10**9]))})
     if r.rc != 0 or r.timed_out or not os.path.exists(outp):
         raise vlib.Inconclusive("in-package queue harness failed (%s):\n%s" % (tag, r.out[-3000:]))
     summary, reported = None, 0
@@ -464,7 +477,7 @@ def run_queue_cases(chk, target, cases, tag, T=2):
                 reported += 1
     if summary is None:
         raise vlib.Inconclusive("queue harness wrote no summary (%s)" % tag)
-    chk.cov["evaluations"] += summary["cases"]
+    chk.cov["evaluations"] += summary.get("runs", summary["cases"])
     chk.cov["distinct_nontrivial"] += summary["nontrivial"]
     return summary
 
@@ -507,9 +520,11 @@ def queue_part(chk, args, only, futs):
             if len(cases) < floor:
                 chk.fail("vacuous: %s produced %d cases" % (name, len(cases)))
                 continue
-            s = run_queue_cases(chk, target, cases, name[:-4], T=(1 if "_T1_" in name else 2))
+            ticks = tick_scales(chk) if target == "inner" else None
+            s = run_queue_cases(chk, target, cases, name[:-4], T=(1 if "_T1_" in name else 2), ticks=ticks)
             chk.note("QueueConn %s: %d operation sequences (%d steps) replayed on the real %s" % (
-                name, s["cases"], s["steps"], ("clientMapInner (explicit clock, timeout %d ticks)" % (1 if "_T1_" in name else 2)) if target == "inner" else "QueuePacketConn"))
+                name, s["cases"], s["steps"], ("clientMapInner (explicit clock, timeout %d ticks, one tick = %s ns: %d runs)" % (
+                    1 if "_T1_" in name else 2, "/".join(str(t) for t in ticks), s.get("runs", 0))) if target == "inner" else "QueuePacketConn"))
             if "full" not in name:
                 chk.sample({"queue_case": cases[len(cases) // 2]})
     if only is None or "sweeper" in only:
@@ -588,7 +603,7 @@ def run(chk, args):
         "quiescence = every goroutine with a turbotunnel.(*RedialPacketConn) frame parked in a channel operation in two consecutive stop-the-world stack dumps",
         "goroutine profile is compared by class counts (reader in ReadFrom / in error send; writer in select / in WriteTo / in error send; dialLoop position), not by generation",
         "user operations are issued sequentially by the driver (no concurrent user calls)",
-        "QueuePacketConn is replayed with the wall clock (no Advance); expiry with an explicit clock is replayed on clientMapInner; the periodic sweeper is observed in real time (T=300 ms, allowance one timeout on the upper bound only)",
+        "QueuePacketConn is replayed with the wall clock (no Advance); expiry with an explicit clock is replayed on clientMapInner with one abstract tick concretised as 1 ns, 37 ms, 1 s and two seeded scales between 1 us and 1 h; the periodic sweeper is observed in real time (T=300 ms, allowance one timeout on the upper bound only)",
         "model ErrChanCap=%d (capacity of the error channels of exchange())" % ERR_CHAN_CAP,
     ]
 
@@ -597,7 +612,7 @@ def replay(chk, path):
     with open(path) as fh:
         rp = json.load(fh)["replay"]
     if rp.get("mode") == "queue":
-        s = run_queue_cases(chk, rp["target"], [rp["case"]], "replay", T=rp.get("T", 2))
+        s = run_queue_cases(chk, rp["target"], [rp["case"]], "replay", T=rp.get("T", 2), ticks=(TICK_ALWAYS + TICK_POOL if rp["target"] == "inner" else None))
         chk.note("replayed 1 queue case: %s" % s)
     elif rp.get("mode") == "sweeper":
         sweeper(chk)
